@@ -125,6 +125,19 @@ def run(chk):
             else:
                 chk.fail("R17.3", f"dep_logic.specifiers:parse_version_specifier:escape:{d.exc_name(e)}",
                          f"parse_version_specifier({t!r}) raises {d.exc_name(e)} instead of dep_logic's InvalidSpecifier")
+    # arbitrary-equality clauses: the operand is any text; whatever the library decides, the only exception allowed is InvalidSpecifier
+    for t in ["===abc", "===nightly.*", "===abc.*", "===1.0.*", "===2024.*", "===1.0+local.*", "=== foo", "===v1", "===1.*.*", "===.*", "===*"]:
+        chk.instance("R17.3")
+        try:
+            d.parse(t)
+            chk.ok("R17.3", key=("arbitrary", t))
+        except PyRaise as e:
+            exc = e.exc
+            if isinstance(exc, AObj) and d.InvalidSpecifier in exc.cls.mro:
+                chk.ok("R17.3", key=("arbitrary-invalid", t))
+            else:
+                chk.fail("R17.3", f"dep_logic.specifiers:parse_version_specifier:escape:{d.exc_name(e)}",
+                         f"parse_version_specifier({t!r}) raises {d.exc_name(e)} instead of returning a specifier or raising dep_logic's InvalidSpecifier")
     fs = d.sp.ns.get("from_specifierset")
     chk.require(fs is not None, "anchor from_specifierset missing")
     for t in [v for v in valid if "||" not in v and "<empty>" not in v and "===" not in v]:
